@@ -316,7 +316,7 @@ def run_seqjudge(ctx, cfg, tag):
         if "{" in l and l.strip().endswith("}"):
             try:
                 st = json.loads(l[l.index("{"):])
-                res["oracle"] = {k: st.get(k, 0) for k in ("s_rb_mismatch", "s_below_gvt", "s_vote_false_pred", "s_gvt_decrease")}
+                res["oracle"] = {k: st.get(k, 0) for k in ("s_rb_mismatch", "s_below_gvt", "s_vote_false_pred", "s_vote_uncommitted", "s_gvt_decrease")}
                 res["outcome"] = st.get("outcome")
             except ValueError:
                 pass
@@ -490,7 +490,7 @@ def run_peer(ctx, cfg, tag):
     return res
 
 
-PEER_ORACLES = ("s_rb_mismatch", "s_below_gvt", "s_gvt_decrease", "s_gvt_disagree", "s_double_free", "s_vote_false_pred")
+PEER_ORACLES = ("s_rb_mismatch", "s_below_gvt", "s_gvt_decrease", "s_gvt_disagree", "s_double_free", "s_vote_false_pred", "s_vote_uncommitted")
 
 
 def peer_matrix(ctx, n_quick, n_thorough, salt=0, jobs=12):
@@ -538,3 +538,21 @@ def peer_matrix(ctx, n_quick, n_thorough, salt=0, jobs=12):
                                  "rollbacks": t.get("rollbacks", 0), "fossil_collections": t.get("fossil", 0),
                                  "known_shutdown_hangs": agg.f1}
     return agg
+
+
+def oracle_search(ctx, cfgs, keys, mode="par", jobs=12, label="oracle_search"):
+    """After a broken correspondence: run further configurations of the implementation judged ONLY by the implementation-side
+    property oracles `keys` (no model involved); records up to 3 witnesses. Returns the number found."""
+    import concurrent.futures
+    found = 0
+    runs = 0
+    with concurrent.futures.ThreadPoolExecutor(max_workers=jobs) as ex:
+        for r in ex.map(lambda ic: run_one(ctx, mode, ic[1], "os%d" % ic[0], model=False), enumerate(cfgs)):
+            runs += 1
+            st = r.get("stats") or {}
+            bad = {k: st.get(k, 0) for k in keys if st.get(k, 0)}
+            if bad and found < 3:
+                ctx.violation("implementation-oracle", {"cfg": r["cfg"], "oracle": bad}, True)
+                found += 1
+    ctx.coverage[label] = {"runs": runs, "witnesses": found}
+    return found
